@@ -45,10 +45,11 @@ def is_node(x: Any) -> bool:
 def is_passthrough(x: Any) -> bool:
     """Structured non-node values whose fields may hold nodes."""
     t = T()
-    # NormalizedSlice is deliberately NOT descended into: no pytato mapper traverses the
-    # (possibly symbolic) start/stop of a normalised slice -- a uniform convention, the size
-    # parameters in them are always reachable through the operand's shape as well.
-    return isinstance(x, (t["CSRMatrix"], t["DistributedSend"]))
+    # NormalizedSlice bounds are structural children (hash-consing, rebuilding, equality),
+    # but their edge kind is "slice_bound": no pytato mapper traverses the (possibly
+    # symbolic) start/stop of a normalised slice -- a uniform convention; C13/C20 skip
+    # these edges (MAPPER_INVISIBLE).
+    return isinstance(x, (t["CSRMatrix"], t["NormalizedSlice"], t["DistributedSend"]))
 
 
 def field_items(obj: Any) -> list[tuple[str, Any]]:
@@ -91,6 +92,8 @@ def edge_kind(path: str) -> str:
     if path.startswith("shape") or path.startswith("newshape"):
         return "shape"
     if path.startswith("indices"):
+        if path.endswith(".start") or path.endswith(".stop") or path.endswith(".step"):
+            return "slice_bound"
         return "index"
     if path.startswith("matrix"):
         return "csr_part"
@@ -131,12 +134,17 @@ def walk(root: Any, enter_functions: bool = True,
     return order
 
 
-def all_edges(root: Any, enter_functions: bool = True
-              ) -> list[tuple[Any, str, Any]]:
+MAPPER_INVISIBLE = ("slice_bound",)
+
+
+def all_edges(root: Any, enter_functions: bool = True,
+              skip_kinds: tuple[str, ...] = ()) -> list[tuple[Any, str, Any]]:
     out = []
-    for n in walk(root, enter_functions):
+    for n in walk(root, enter_functions, skip_kinds):
         for path, c in edges(n):
             if not enter_functions and edge_kind(path) == "function_body":
+                continue
+            if skip_kinds and edge_kind(path) in skip_kinds:
                 continue
             out.append((n, path, c))
     return out
